@@ -27,13 +27,53 @@ def _ACC():
     return Sym(E.const(E.frac_of_float(M.CONSTANTS.ACC_SCALE), E.R))
 
 
+def replay_timestep_reassigned(model):
+    """real code: a driver constructed with dt = 0.4 fs whose public `timestep` is then set to 0.2 fs (the repository's own
+    nonadiabatic tests assign it after construction) must step exactly like a driver constructed with 0.2 fs."""
+    import io, contextlib, os, tempfile, shutil
+    import torch
+    from seqm.seqm_functions.constants import Constants
+    from seqm.Molecule import Molecule
+    from seqm.MolecularDynamics import Molecular_Dynamics_Basic
+
+    torch.set_default_dtype(torch.float64)
+
+    def run(dt_ctor, dt_run):
+        d = tempfile.mkdtemp(prefix="pyvc_c08_")
+        try:
+            params = {"method": "AM1", "scf_eps": 1e-8, "scf_converger": [1], "sp2": [False, 1e-5], "elements": [0, 1], "learned": [], "pair_outer_cutoff": 1e10, "eig": True}
+            mol = Molecule(Constants(), params, torch.tensor([[[0.0, 0, 0], [0.80, 0.1, 0]]]), torch.tensor([[1, 1]]))
+            mol.velocities = torch.tensor([[[0.01, 0.0, 0.0], [-0.01, 0.002, 0.0]]])
+            md = Molecular_Dynamics_Basic(params, timestep=dt_ctor, Temp=0.0, output={"molid": [0], "prefix": os.path.join(d, "md"), "print every": 0, "checkpoint every": 0, "xyz": 0, "h5": {}})
+            md.timestep = dt_run
+            with contextlib.redirect_stdout(io.StringIO()):
+                md.run(mol, 3, remove_com=None)
+            return mol.coordinates.detach().clone(), mol.velocities.detach().clone()
+        finally:
+            shutil.rmtree(d, ignore_errors=True)
+
+    (xa, va), (xb, vb) = run(0.4, 0.2), run(0.2, 0.2)
+    dev = max(float((xa - xb).abs().max()), float((va - vb).abs().max()))
+    return {"reproduced": dev > 0.0, "max_abs_difference_after_3_steps": dev, "constructed_with": 0.4, "timestep_set_to": 0.2}
+
+
 def task_verlet(ctx):
-    """O2: one_step is exactly  v+=a dt/2; x+=v dt; a=F(x_new)/m; v+=a dt/2  (the new force, the half-kicked velocity)."""
+    """O2: one_step is exactly  v+=a dt/2; x+=v dt; a=F(x_new)/m; v+=a dt/2  (the new force, the half-kicked velocity), with dt
+    the value of the public attribute `timestep` AT THE TIME OF THE STEP (second variant: the attribute is reassigned after
+    construction, as the repository's own tests do)."""
     ctx.under_contract(MD + ":Molecular_Dynamics_Basic.one_step", stubs=["esdriver"])
     ctx.under_contract(MD + ":Molecular_Dynamics_Basic._do_integrator_step")
-    for nat in ((1, 2) if ctx.tier == "quick" else (1, 2, 3)):
+    from contracts.C07_differentiability import _quiet
+
+    rep = []
+    for nat, reassigned in ([(n, False) for n in ((1, 2) if ctx.tier == "quick" else (1, 2, 3))] + [(1, True)]):
         def thunk():
             md = _make_basic()
+            if reassigned:
+                import seqm.MolecularDynamics as M
+
+                md = M.Molecular_Dynamics_Basic(seqm_parameters={"method": "AM1"}, timestep=real("dt_at_construction"), Temp=real("Temp"), output={"h5": {}, "print every": 0, "checkpoint every": 0})
+                md.timestep = real("dt")
             md.esdriver.behaviour = _driver_behaviour
             mol = _mol(nat)
             x0, v0, a0 = mol.coordinates.clone(), mol.velocities.clone(), mol.acc.clone()
@@ -47,10 +87,12 @@ def task_verlet(ctx):
                 continue
             md, mol, (x0, v0, a0), calls = p.value
             xs, vs, as_ = _spec_step(x0, v0, a0, real("dt"), mol.mass_inverse, _ACC())
+            pre = "timestep-reassigned-after-construction." if reassigned else ""
+            rp = (lambda m_: (rep or rep.append(_quiet(replay_timestep_reassigned)) or rep)[0]) if reassigned else None
             for k, pos in enumerate(np.ndindex(*x0.a.shape)):
-                ctx.prove_eq("n=%d.x'[%d]" % (nat, k), mol.coordinates.a[pos], xs.a[pos], pc=p.pc, shape="atoms=%d" % nat)
-                ctx.prove_eq("n=%d.v'[%d]" % (nat, k), mol.velocities.a[pos], vs.a[pos], pc=p.pc, shape="atoms=%d" % nat)
-                ctx.prove_eq("n=%d.acc'[%d]" % (nat, k), mol.acc.a[pos], as_.a[pos], pc=p.pc, shape="atoms=%d" % nat)
+                ctx.prove_eq("%sn=%d.x'[%d]" % (pre, nat, k), mol.coordinates.a[pos], xs.a[pos], pc=p.pc, shape="atoms=%d" % nat, replay=rp)
+                ctx.prove_eq("%sn=%d.v'[%d]" % (pre, nat, k), mol.velocities.a[pos], vs.a[pos], pc=p.pc, shape="atoms=%d" % nat, replay=rp)
+                ctx.prove_eq("%sn=%d.acc'[%d]" % (pre, nat, k), mol.acc.a[pos], as_.a[pos], pc=p.pc, shape="atoms=%d" % nat)
             # how often the driver is called and what initial density it is handed are efficiency matters the property does not
             # fix: recorded, not obliged (the equalities above already pin which force enters the second half-kick)
             ctx.notes.append("n=%d: electronic-structure driver called %d time(s) per step; P0 handed over: %s" % (nat, len(calls), "molecule.dm" if calls and calls[0].get("P0") is mol.dm else "other"))
